@@ -447,10 +447,28 @@ def run_contract(inp):
     return out
 
 
+def _frame_ops(inp):
+    """the model's own constructor (GS.originTo / tangentOriginTo / spacelikeTo, no kernel rows: only the rows the
+    algorithm determines) on the exact inputs, one op per unit"""
+    kind = inp["kind"]
+    if kind == "origin_to":
+        return [{"op": "c02.frame", "kind": kind, "x": L.encV([F(s) * x for x in L.hyperboloid_from_poincare(Q.dec(p))])}
+                for p, s in zip(inp["pts"], inp["scale"])]
+    if kind == "tv_origin_to":
+        ps, vs = F(inp.get("pscale", "1")), F(inp["vscale"])
+        return [{"op": "c02.frame", "kind": kind, "x": L.encV([ps * t for t in Q.dec(f)[0]]), "v": L.encV([vs * t for t in Q.dec(f)[1]])}
+                for f in inp["frames"][0]]
+    if kind == "spacelike_to":
+        # the completed row t = e0 - projection(e0, v̂) needs √(1 + v̂₀²), rarely rational: the Gram–Schmidt rows before the
+        # final normalize and their square-norms are asked for, and normalised in floats here
+        return [{"op": "c02.frame", "kind": kind, "v": inp["v"], "unnormalized": True}]
+    return []
+
+
 def lean_contract(inp, obs):
     if "exc" in obs:
         return []
-    return [{"op": "c02.residual", "M": L.fenc(np.array(m))} for m in obs["mats"]]
+    return [{"op": "c02.residual", "M": L.fenc(np.array(m))} for m in obs["mats"]] + _frame_ops(inp)
 
 
 def _expected_rows(inp):
@@ -503,6 +521,22 @@ def judge_contract(inp, obs, lr):
     if "dets" in obs and not all(d > 0 for d in obs["dets"]):
         return {"expected": "positive determinant with force_oriented=True", "observed": obs["dets"],
                 "tags": dict(tags, orientation=True), "property_failure": True}
+    # the rows the algorithm determines, computed by the model's constructor itself (c02.frame)
+    for m, res in zip(obs["mats"], lr[len(obs["mats"]):]):
+        if "err" in res:
+            if res["err"] == "irrational-root":
+                continue      # a root the model would need is irrational for this input: nothing to compare by value
+            return {"expected": "model answer", "observed": res, "tags": dict(tags, driver_err=res["err"])}
+        ok = res["ok"]
+        if isinstance(ok, dict):
+            ok = [[float(x) / math.sqrt(abs(float(F(q)))) for x in r] for r, q in zip(Q.dec(ok["rows"]), ok["norms"])]
+        else:
+            ok = Q.dec(ok)
+        for i, v in enumerate(ok):
+            # a row is prescribed as a point / direction: up to sign (and make_orientation_preserving may negate the last row)
+            if not (close(np.array(m)[i], L.fl(v), 1e-9) or close(-np.array(m)[i], L.fl(v), 1e-9)):
+                return {"expected": {"row": i, "model value": [float(x) for x in v]}, "observed": np.array(m)[i].tolist(),
+                        "tags": dict(tags, row=i, model_frame=True)}
     rows = _expected_rows(inp)
     if rows:
         for ex, m in zip(rows, obs["mats"]):
@@ -1413,7 +1447,7 @@ CLAUSES = [
     Clause("contract_corr", "corr", gen_contract, run_contract, judge_contract, lean=lean_contract,
            site="Point.origin_to, TangentVector.origin_to/isometry_to, timelike_to, spacelike_to, CoxeterGroup.hyperbolic_rep",
            budget={"quick": 600, "thorough": 16000},
-           what="‖M J Mᵀ − J‖∞ evaluated exactly in Lean on the float output; determinant sign with force_oriented; rows the algorithm determines by value; composite shapes; Coxeter groups of rank 3-5 with words ≤ 6"),
+           what="‖M J Mᵀ − J‖∞ evaluated exactly in Lean on the float output; determinant sign with force_oriented; rows the algorithm determines by value (Lean GS.originTo / tangentOriginTo / spacelikeTo executed on the exact inputs, c02.frame); composite shapes; Coxeter groups of rank 3-5 with words ≤ 6"),
     Clause("iso_oracle", "oracle", gen_oracle(6, 2.0), run_oracle, judge_oracle,
            site="every Isometry constructor; Transformation.apply/inv", budget={"quick": 1200, "thorough": 40000},
            what="float parameters: form residual of every constructor and of random words with inverses; distance invariance on point pairs; interior/ideal/exterior preserved (composite point shapes)"),
